@@ -5,6 +5,6 @@ CONSTANTS
   MaxLen = 3
   MaxLearn = 4
   MaxRestart = 1
-INVARIANTS TypeOK TrailConsistent ReasonForces SatSound UnsatSound LearnEntailed ConflEntailed EmitInit
+INVARIANTS TypeOK TrailConsistent ReasonForces SatSound UnsatSound LearnEntailed ConflEntailed DecisionsDetermineModel EmitInit
 PROPERTY CertRUP
 CHECK_DEADLOCK FALSE
